@@ -56,7 +56,7 @@ def cases(draw):
     f = {}
     for k in m.keys(t):
         spec = m.specs[(t, k)]
-        f[k] = draw(st.sampled_from(["x", "x_y", "x.b", "y"])) if spec.free else draw(gens.concrete_value(spec, digits_dense=True))
+        f[k] = draw(st.sampled_from(["x", "x_y", "x.b", "y", "x?y", "x?task=rig", "x#1", "x y"])) if spec.free else draw(gens.concrete_value(spec, digits_dense=True))
     ps = pieces(pm, t, f)
     labels = []
     rootkind = "own"
@@ -71,7 +71,7 @@ def cases(draw):
             i = draw(st.sampled_from(vals))
             key = ps[i][2]
             spec = m.specs[(t, key)]
-            other = draw(st.one_of(gens.concrete_value(spec, digits_dense=True), st.sampled_from(["x", "zz", "*", ""])))
+            other = draw(st.one_of(gens.concrete_value(spec, digits_dense=True), st.sampled_from(["x", "zz", "*", "", "x?y", "?", "x?" + key + "=zz"])))
             other = pm.map_value(t, key, other) if draw(st.booleans()) else other
             for j in vals:
                 if ps[j][2] == key and (op == "subst-all" or j == i):
